@@ -332,7 +332,7 @@ MANIFEST_TEXT = {
         "level_note": "Trusted: upstream core/vm as oracle, geth's state.StateDB on both sides, the scenario generator's host "
                       "preconditions. Programs touching 0x64-0x66 or journal opcode bytes are out of the property's domain and "
                       "are discarded (counted).",
-        "technique": "property-based differential testing against a reference implementation (rapid)",
+        "technique": "property-based differential testing against a reference implementation (rapid; thorough tier adds coverage-guided go test -fuzz on the same oracle)",
     },
     "C02": {
         "level_text": "Differential property-based testing of the per-step gas stream plus a generated gas-limit sweep around "
@@ -341,7 +341,7 @@ MANIFEST_TEXT = {
         "design_ref": "DESIGN.md section 4, C02",
         "level_note": "Trusted: upstream core/vm as oracle; the recorder copies (gas, cost) at CaptureState/CaptureFault, "
                       "CaptureEnter/Exit, CaptureStart/End.",
-        "technique": "property-based differential testing of step-level gas with generated gas-limit sweeps (rapid)",
+        "technique": "property-based differential testing of step-level gas with generated gas-limit sweeps (rapid; thorough tier adds coverage-guided go test -fuzz on the same oracle)",
     },
     "C20": {
         "level_text": "Metamorphic / calibrated work metering under property-based probe generation: per-instruction state reads "
@@ -352,7 +352,7 @@ MANIFEST_TEXT = {
                       "the protocol's own opcodes (worst case: Frontier EXTCODECOPY/EXTCODESIZE loading 20 KB of code for 20 "
                       "gas); an amplification below that is not flagged. Wall-clock time is never a verdict. Hashing work is "
                       "covered through allocation / read counts only.",
-        "technique": "property-based single-instruction probes with a calibrated work meter (rapid)",
+        "technique": "property-based single-instruction probes with a calibrated work meter; growth law over histories of one flat-fee instruction; host block-hash lookups confined to the 256-block window (rapid)",
     },
     "C03": {
         "level_text": "Robustness property testing / fuzzing with a validity predicate: hostile generated byte-code, operands, "
@@ -363,7 +363,7 @@ MANIFEST_TEXT = {
         "level_note": "Stored string lengths >= 2^20 drive VRJNAL into an unbounded read loop (open finding of C20): such "
                       "instructions are cut off by the work governor after 1e5 reads and counted, so that the search continues "
                       "behind them. Sampling; absence of crashes is not proved.",
-        "technique": "property-based robustness testing with hostile generators and a validity predicate (rapid)",
+        "technique": "property-based robustness testing with hostile generators and a validity predicate (rapid; thorough tier adds coverage-guided go test -fuzz on the same oracle)",
     },
     "C04": {
         "level_text": "Fault enumeration over generated call trees: every join-point firing position of every generated tree is "
@@ -379,7 +379,8 @@ MANIFEST_TEXT = {
     },
     "C06": {
         "level_text": "Property-based testing of gas conservation laws over the event log of generated call trees with real "
-                      "gas-burning WASM Aspects at generated join points, plus a metamorphic comparison with the Aspect-free run.",
+                      "gas-burning WASM Aspects at generated join points, plus a metamorphic comparison with the Aspect-free run and "
+                      "boundary variants of each case in which a call is given exactly the gas its join points burn.",
         "design_ref": "DESIGN.md section 4, C06",
         "level_note": "The statement fixes the gas outcome for exhausted Aspects and for non-revert post failures; for an Aspect "
                       "that reverts only 'never more than given' and 'an Aspect never reports more than it got' are asserted. "
@@ -420,7 +421,7 @@ MANIFEST_TEXT = {
         "design_ref": "DESIGN.md section 4, C09",
         "level_note": "String lengths are bounded by 130 bytes here (huge stored lengths are C20's subject). Zero-width fields are "
                       "not generated (the statement does not say whether they denote a valid field).",
-        "technique": "property-based testing against an independent reference decoder (rapid)",
+        "technique": "property-based testing against an independent reference decoder (rapid; thorough tier adds coverage-guided go test -fuzz on the same oracle)",
     },
     "C10": {
         "level_text": "Property-based testing against a shadow journal rebuilt from the event log of generated call trees "
@@ -447,7 +448,7 @@ MANIFEST_TEXT = {
         "design_ref": "DESIGN.md section 4, C12",
         "level_note": "Gas is made unobservable by construction (no GAS opcode, constant call gas) and runs that hit out-of-gas are "
                       "discarded and counted. The fee constant is measured over the run, not hard-coded.",
-        "technique": "metamorphic property-based testing with identical byte layout (rapid)",
+        "technique": "metamorphic property-based testing with identical byte layout; systematic one-operand mutation for malformed operands; flat-fee invariant under low gas (rapid)",
     },
     "C13": {
         "level_text": "Property-based testing of a history invariant: the balance journal is compared with the balances the "
@@ -474,7 +475,7 @@ MANIFEST_TEXT = {
         "level_note": "Payloads below the minimum length (20 / 1 / 128 bytes) may be rejected or answered with empty success, but "
                       "must not reach the host. A decodable context write may be refused with an error (e.g. for call kinds "
                       "that carry no caller context) but never attributed to another address.",
-        "technique": "property-based testing with an independent decoder and host-callback recorder (rapid)",
+        "technique": "property-based testing with an independent decoder and host-callback recorder (rapid; thorough tier adds coverage-guided go test -fuzz on the same oracle)",
     },
     "C15": {
         "level_text": "Model-based property testing: executable reference models of EIP-1153 and EIP-5656 (written from the "
@@ -493,7 +494,7 @@ MANIFEST_TEXT = {
         "design_ref": "DESIGN.md section 4, C16",
         "level_note": "A nondeterminism that needs more than 8 (32) repetitions or another process to show is missed; map-order "
                       "dependence over lists of n >= 2 elements shows with probability 1 - (1/n!)^(reps-1) per case.",
-        "technique": "property-based testing of a repetition (determinism) relation (rapid)",
+        "technique": "property-based testing of a repetition (determinism) relation over journal scripts and over arbitrary transactions with unrelated executions on other EVMs in between (rapid, 8 processes per stage)",
     },
     "C17": {
         "level_text": "Property-based concurrency testing under the Go race detector: generated scenario sets run concurrently "
@@ -512,7 +513,7 @@ MANIFEST_TEXT = {
         "design_ref": "DESIGN.md section 4, C18",
         "level_note": "Trusted: upstream eth/tracers and core/vm as oracle. Tracers that take their environment from "
                       "CaptureStart are only driven through call/create entry points (upstream's own tracers crash otherwise).",
-        "technique": "property-based differential testing of event streams and tracer outputs + history invariant (rapid)",
+        "technique": "property-based differential testing of event streams and tracer outputs + history invariant (rapid; thorough tier adds coverage-guided go test -fuzz on the same oracle)",
     },
 }
 
